@@ -8,3 +8,23 @@ CHECKS = {
   'note': 'Trusts: Python re as the judge of regex validity; the allowed-exception table derived from the property text (PatternLimitException only with BRACE/SPLIT, SyntaxError/LookupError only with RAWCHARS, TypeError/ValueError only for mixed types or pathlib absolute/foreign-platform use). Degraded meaning of malformed constructs is not modelled (only: no crash, regex compiles).',
  },
 }
+CHECKS.update({
+ 'C01': {
+  'technique': 'bounded-exhaustive pattern ASTs x all names up to length N over minterm representatives + Hypothesis ASTs with model-guided names; oracle = independent reference matcher (three-valued)',
+  'text': 'Every pattern AST within token budget 3 (4 thorough) is rendered, run through fnmatch/filter/compile().match and compared with an independent AST-level reference matcher on every name up to length 4 (5 thorough) over one representative per minterm of the pattern (hence on all names up to that length), under DOTMATCH on/off and without EXTMATCH; Hypothesis adds deeper ASTs (budget 8-12, ranges, 14 POSIX classes, IGNORECASE/CASE/FORCEUNIX) with model-guided accepted names up to length 24 and their edit-1 neighbours; all code points 0-255 plus 400 others against every POSIX class. Bounded enumeration plus sampling, not language equivalence.',
+  'design_ref': 'DESIGN.md 2.1-2.3, section 3 C01',
+  'note': 'Trusts the reference matcher (wcverif/ref.py) as the documented meaning; `!(...)` outside the exact fragment of the statement and non-ASCII case folding are EITHER; names beginning with "." without DOTMATCH belong to C03. Known findings K1, K2 are attributed by class predicate only.',
+ },
+ 'C02': {
+  'technique': 'bounded-exhaustive 1-3 segment path patterns x all paths up to length 5 + Hypothesis path patterns with assembled paths; oracle = reference segment alignment (three-valued) + model-free text-level segment-count invariant',
+  'text': 'Every 1-3 segment path pattern within total token budget 3 (4 thorough), with globstar segments in any position and absolute / trailing / duplicate separator variants, is run through globmatch/globfilter/compile().match under configurations of GLOBSTAR, GLOBSTARLONG, MATCHBASE, DOTGLOB, NODOTDIR, NODIR and compared with the reference alignment on every path up to length 5 over the minterm representatives plus "/"; Hypothesis adds patterns of up to 4 segments with paths assembled from model-accepted segment names; a text-level invariant (accepted paths have exactly as many segments as the pattern has pieces) runs on raw strings.',
+  'design_ref': 'DESIGN.md 2.2, section 3 C02',
+  'note': 'Trusts ref.path_verdict; undecided zones (nullable segment vs no segment, separator-only paths, MATCHBASE with a leading globstar) are EITHER and counted. Paths with hidden or ./.. segments belong to C03.',
+ },
+ 'C03': {
+  'technique': 'same enumerations as C01/C02 restricted to hidden names and ./.. segments, judged by a strict/lenient pair of reference models; metamorphic exclusion clause; glob()/WcMatch results on a dot-rich tree judged by the reference',
+  'text': 'For hidden names (DOTMATCH off) and ./.. segments the lenient model (the leading dot can only be consumed by a written ".") gives MUSTNOT and the strict model (and nothing wildcard-like stands before it) gives MUST; enumerated in fnmatch mode, glob mode (incl. MATCHBASE, NODOTDIR) and through pathlib PurePath.match; exclusion patterns are checked to behave as with DOTMATCH forced in all four delivery forms; glob/iglob/Path.glob/WcMatch results on a tree full of dot entries may not contain a path the lenient model forbids.',
+  'design_ref': 'DESIGN.md 2.2, section 3 C03',
+  'note': 'The statement is two one-sided claims; the gap between them is EITHER. Known findings K1-K5, K8, K20 are attributed by narrow class predicates (wcverif/findings.py); Windows hidden attributes are unreachable on Linux.',
+ },
+})
